@@ -35,13 +35,15 @@ type Agent struct {
 }
 
 func NewAgent(c *Cluster) actor.Producer {
-	kinds := make(map[string]bool)
-	localKinds := make(map[string]kind)
-	for _, kind := range c.kinds {
-		kinds[kind.name] = true
-		localKinds[kind.name] = kind
-	}
 	return func() actor.Receiver {
+		// All state belongs to one incarnation of the agent: after a restart the member
+		// set is empty again, so the cluster wide kinds start from our own as well.
+		kinds := make(map[string]bool)
+		localKinds := make(map[string]kind)
+		for _, kind := range c.kinds {
+			kinds[kind.name] = true
+			localKinds[kind.name] = kind
+		}
 		return &Agent{
 			members:    NewMemberSet(),
 			cluster:    c,
